@@ -14,20 +14,29 @@
                            names that are not builtins
      a2a_guard f           THE decidable guard (evaluated on every program of the correspondence
                            run): no name starts with `_`; bool / int constants only; no `**`; a
-                           subscript is indexed by a constant or by an enclosing loop variable; no
-                           call of len / sum / all / any / min / max / abs / print / ord / chr, range
-                           only as a loop iterator; a tuple target only with a literal tuple / list of
-                           the same length on the right; loops over range(...) or a literal
-                           tuple / list of bool / int constants
-     gstmt okn lv s        the same guard with [okn] the admissible names, [lv] the loop variables
-     bsim P f g            backward simulation: whenever g (the rewritten code) has an outcome from
-                           an environment, f (the original) has one from every environment agreeing
-                           with it on the names P selects: same returned value, again agreeing
+                           subscript is indexed by a constant or by the variable of an enclosing loop
+                           over range / constants; no call of len / sum / all / any / min / max / abs /
+                           print / ord / chr, range only as a loop iterator; a tuple target only with
+                           a literal tuple / list of the same length, or a typed tuple argument of that
+                           length, on the right; loops over range(...), over a literal tuple / list of
+                           bool / int constants, or over a typed tuple argument; the typed tuple
+                           arguments (annotation Tuple[...], which is what Qlist / Qmatrix become)
+                           are never re-bound
+     plen_of f a           the length of the typed tuple argument a (None: not one)
+     conforms f rho        rho gives every typed tuple argument a tuple of the annotated length
+     gstmt okn plen lv s   the same guard with [okn] the admissible names, [plen] the typed tuple
+                           arguments, [lv] the index-capable loop variables
+     bsim plen rho0 P f g  backward simulation: whenever g (the rewritten code) has an outcome from an
+                           environment in which the typed arguments have their initial value (rho0),
+                           f (the original) has one from every environment agreeing with it on the
+                           names P selects: same returned value, again agreeing, typed arguments kept
      normal_form l         only `name = e`, `return e` and expression statements are left
    Direction: "normalised has a value  ==>  source has the same value".  The converse is FALSE
    inside the guard (C01a_forward_refuted: a name assigned in one branch only) and the unguarded
-   statement is FALSE in both directions (C01a_preserves_refuted and the five witnesses, each a
-   program the real library accepts and mis-translates). *)
+   statement is still FALSE (C01a_preserves_refuted and three witnesses the current library accepts
+   and mis-translates: a tuple of constants re-assigned under an if and indexed by a variable, and
+   user variables named like the temporaries).  The five witnesses of the first round are repaired
+   in /repo (cc7fed2 .. d025bfb) and are now positive Examples at the end. *)
 From Coq Require Import List Bool NArith ZArith Arith String.
 From QV Require Import M_A2A P_A2A.
 Import ListNotations.
@@ -42,30 +51,43 @@ Print Assumptions C01a_normal_form.
    non-builtin calls, a value of the normalised program is the value of the source program *)
 Theorem C01a_backward : forall ext f b',
   a2a_guard f = true -> a2a f = Ok b' ->
-  forall rho v, run ext b' rho = Some v -> run ext (f_body f) rho = Some v.
+  forall rho, conforms f rho ->
+  forall v, run ext b' rho = Some v -> run ext (f_body f) rho = Some v.
 Proof. exact a2a_backward. Qed.
 Print Assumptions C01a_backward.
 
+(* conformance is decided on the arguments *)
+Theorem C01a_conforms_check : forall f rho, conforms_b f rho = true -> conforms f rho.
+Proof. exact conforms_check. Qed.
+Print Assumptions C01a_conforms_check.
+
 (* pass by pass *)
 (* ConstantFolder: the folded list has exactly the outcome of the original (both directions) *)
-Theorem C01a_fold_preserves : forall ext okn lv b b',
-  forallb (gstmt okn lv) b = true -> fold_list b = Ok b' ->
-  (forall rho, exec_list ext b' rho = exec_list ext b rho) /\ forallb (gstmt okn lv) b' = true.
+Theorem C01a_fold_preserves : forall plen ext okn lv b b',
+  forallb (gstmt okn plen lv) b = true -> fold_list b = Ok b' ->
+  (forall rho, exec_list ext b' rho = exec_list ext b rho) /\ forallb (gstmt okn plen lv) b' = true.
 Proof. exact fold_list_sound. Qed.
 Print Assumptions C01a_fold_preserves.
 
 (* ReplaceMultiTargetAssign: a, b = e1, e2  becomes  _temptup = (e1, e2); a = _temptup[0]; ... *)
-Theorem C01a_multi_preserves : forall ext lv b b',
-  forallb (gstmt user_name lv) b = true -> multi_list b = Ok b' ->
-  forallb (gstmt visible lv) b' = true /\ bsim user_name (exec_list ext b) (exec_list ext b').
+Theorem C01a_multi_preserves : forall plen,
+  (forall a, prot plen a = true -> user_name a = true) ->
+  forall rho0, (forall a n, plen a = Some n -> exists vs, rho0 a = Some (VTup vs) /\ List.length vs = n) ->
+  forall ext lv b b',
+  forallb (gstmt user_name plen lv) b = true -> multi_list b = Ok b' ->
+  forallb (gstmt visible plen lv) b' = true /\
+  bsim plen rho0 user_name (exec_list ext b) (exec_list ext b').
 Proof. exact multi_list_sound. Qed.
 Print Assumptions C01a_multi_preserves.
 
 (* ASTRewriter: if-flattening into _iftargN + conditional expressions, the __x temporaries of
    self-referencing and augmented assignments, loop unrolling with substitution of the loop variable *)
-Theorem C01a_rewriter_preserves : forall ext b st l st',
-  forallb (gstmt visible []) b = true -> forallb notup b = true ->
-  rw_list rw_fuel st b = Ok (l, st') -> rw_post ext st l st' (exec_list ext b).
+Theorem C01a_rewriter_preserves : forall plen,
+  (forall a, prot plen a = true -> user_name a = true) ->
+  forall rho0, (forall a n, plen a = Some n -> exists vs, rho0 a = Some (VTup vs) /\ List.length vs = n) ->
+  forall ext b st l st',
+  forallb (gstmt visible plen []) b = true -> forallb notup b = true -> st_ok plen st ->
+  rw_list rw_fuel st b = Ok (l, st') -> rw_post plen rho0 ext st l st' (exec_list ext b).
 Proof. exact rw_list_sound. Qed.
 Print Assumptions C01a_rewriter_preserves.
 
@@ -76,30 +98,21 @@ Theorem C01a_preserves_refuted :
 Proof. exact a2a_preserves_refuted. Qed.
 Print Assumptions C01a_preserves_refuted.
 
-(* t, a = t : the second single assignment reads the new t *)
-Theorem C01a_refuted_multi_target : differ wit_multi wit_multi_env.
-Proof. exact wit_multi_differ. Qed.
-Print Assumptions C01a_refuted_multi_target.
+(* t = (True, False); if c: t = (False, True); return t[u[0]] : the constants recorded for a name
+   are flow-insensitive and a tuple of CONSTANTS is still inlined (the current /repo accepts and
+   mis-translates this program) *)
+Theorem C01a_refuted_const_tuple_flow : differ wit_constflow wit_constflow_env.
+Proof. exact wit_constflow_differ. Qed.
+Print Assumptions C01a_refuted_const_tuple_flow.
 
-(* t = (a, b); a = not a; return t[u[0]] : the recorded element expressions are read too late *)
-Theorem C01a_refuted_tuple_alias : differ wit_alias wit_alias_env.
-Proof. exact wit_alias_differ. Qed.
-Print Assumptions C01a_refuted_tuple_alias.
+(* user variables named like the rewriter's temporaries: _temptup, _iftargN *)
+Theorem C01a_refuted_reserved_temptup : differ wit_temptup wit_temptup_env.
+Proof. exact wit_temptup_differ. Qed.
+Print Assumptions C01a_refuted_reserved_temptup.
 
-(* t = (a, b); if c: t = (b, a); return t[u[0]] : the recorded constants are flow-insensitive *)
-Theorem C01a_refuted_tuple_flow : differ wit_flow wit_flow_env.
-Proof. exact wit_flow_differ. Qed.
-Print Assumptions C01a_refuted_tuple_flow.
-
-(* for x in m[0] with m a 2 x 3 matrix: the row length is taken from the outer dimension *)
-Theorem C01a_refuted_matrix_row : differ wit_matrix wit_matrix_env.
-Proof. exact wit_matrix_differ. Qed.
-Print Assumptions C01a_refuted_matrix_row.
-
-(* for x in a: a = (s, x); s = s ^ x : the loop variable is an expression over the re-bound a *)
-Theorem C01a_refuted_loop_rebind : differ wit_loop wit_loop_env.
-Proof. exact wit_loop_differ. Qed.
-Print Assumptions C01a_refuted_loop_rebind.
+Theorem C01a_refuted_reserved_iftarg : differ wit_iftarg wit_iftarg_env.
+Proof. exact wit_iftarg_differ. Qed.
+Print Assumptions C01a_refuted_reserved_iftarg.
 
 (* inside the guard the converse of C01a_backward fails *)
 Theorem C01a_forward_refuted :
@@ -124,7 +137,7 @@ Print Assumptions C01a_forward_refuted.
                p = p + x
        return p + y *)
 Definition ex_fun : fundef :=
-  (mkfun [("a", (Some (EName "bool"))); ("b", (Some (EName "bool"))); ("x", (Some (ESubscript (EName "Qint") (EConst (CInt (Zpos (xO xH))))))); ("y", (Some (ESubscript (EName "Qint") (EConst (CInt (Zpos (xO xH)))))))] (Some (ESubscript (EName "Qint") (EConst (CInt (Zpos (xO (xO xH))))))) [(SAssign (TName "p") (EConst (CInt Z0))); (SAssign (TTuple [(EName "a"); (EName "b")]) (ETuple [(EName "b"); (EName "a")])); (SIf (EName "a") [(SAssign (TName "x") (EBinOp Add (EName "x") (EConst (CInt (Zpos xH))))); (SAssign (TName "a") (EUnOp Not (EName "a")))] [(SIf (EName "b") [(SAugAssign "x" Add (EConst (CInt (Zpos (xO xH)))))] [(SAssign (TName "y") (EName "x"))])]); (SFor "i" (ECall "range" [(EConst (CInt (Zpos (xI xH))))]) [(SIf (ECompare GtE (EName "i") (EConst (CInt (Zpos xH)))) [(SAssign (TName "p") (EBinOp Add (EName "p") (EName "x")))] [])]); (SReturn (EBinOp Add (EName "p") (EName "y")))]).
+  (mkfun [("a", (Some (EName "bool"))); ("b", (Some (EName "bool"))); ("x", (Some (ESubscript (EName "Qint") (EConst (CInt (Zpos (xO xH))))))); ("y", (Some (ESubscript (EName "Qint") (EConst (CInt (Zpos (xO xH)))))))] (Some (ESubscript (EName "Qint") (EConst (CInt (Zpos (xO (xO xH))))))) [(SAssign (TName "p") (EConst (CInt Z0))); (SAssign (TTuple [(EName "a"); (EName "b")]) (ETuple [(EName "b"); (EName "a")])); (SIf (EName "a") [(SAssign (TName "x") (EBinOp Add (EName "x") (EConst (CInt (Zpos xH))))); (SAssign (TName "a") (EUnOp Not (EName "a")))] [(SIf (EName "b") [(SAugAssign "x" Add (EConst (CInt (Zpos (xO xH)))))] [(SAssign (TName "y") (EName "x"))])]); (SFor "i" (ECall "range" [(EConst (CInt (Zpos (xI xH))))]) [(SIf (ECompare GtE (EName "i") (EConst (CInt (Zpos xH)))) [(SAssign (TName "p") (EBinOp Add (EName "p") (EName "x")))] [])] []); (SReturn (EBinOp Add (EName "p") (EName "y")))]).
 Definition ex_env : env := env_of [("a", VBool false); ("b", VBool true); ("x", VInt 2); ("y", VInt 3)].
 
 (* the guard of C01a_backward holds, the normaliser succeeds, the normalised program has a value *)
@@ -143,4 +156,51 @@ Example ex_shape :
               existsb (fun s => match s with SAssign (TName y) _ => String.eqb y "__x" | _ => false end) b')
   | _ => (false, 0%nat, false, false, false)
   end = (true, 26%nat, true, true, true).
+Proof. vm_compute. reflexivity. Qed.
+
+(* the five programs that refuted preservation before the repairs cc7fed2 .. d025bfb of /repo
+   (t, a = t;  t = (a, b); a = not a; t[u[0]];  the same under an if;  for x in m[0] of a 2 x 3
+   matrix;  for x in a with a re-bound in the body): each is now normalised to a program with
+   the value of the source *)
+Example repaired_multi_target : agree wit_multi wit_multi_env (VBool true).
+Proof. exact wit_multi_agree. Qed.
+Example repaired_tuple_alias : agree wit_alias wit_alias_env (VBool true).
+Proof. exact wit_alias_agree. Qed.
+Example repaired_tuple_flow : agree wit_flow wit_flow_env (VBool true).
+Proof. exact wit_flow_agree. Qed.
+Example repaired_matrix_row : agree wit_matrix wit_matrix_env (VBool true).
+Proof. exact wit_matrix_agree. Qed.
+Example repaired_loop_rebind : agree wit_loop wit_loop_env (VBool false).
+Proof. exact wit_loop_agree. Qed.
+
+(* typed tuple arguments: a loop over a Qlist, with a condition inside, and an unpacking
+   def ex2(a: Qlist[bool, 3], t: Tuple[Qint[2], Qint[2]], c: bool) -> Qint[4]:
+       p, q = t
+       for x in a:
+           if x:
+               p = p + q
+           c = c ^ x
+       return p if c else q *)
+Definition ann_b3 : option exp := Some (ESubscript (EName "Tuple") (ETuple [EName "bool"; EName "bool"; EName "bool"])).
+Definition ann_q2 : exp := ESubscript (EName "Qint") (EConst (CInt 2)).
+Definition ex2_fun : fundef :=
+  mkfun [("a", ann_b3); ("t", Some (ESubscript (EName "Tuple") (ETuple [ann_q2; ann_q2]))); ("c", Some (EName "bool"))]
+        (Some (ESubscript (EName "Qint") (EConst (CInt 4))))
+        [SAssign (TTuple [EName "p"; EName "q"]) (EName "t");
+         SFor "x" (EName "a")
+              [SIf (EName "x") [SAssign (TName "p") (EBinOp Add (EName "p") (EName "q"))] [];
+               SAssign (TName "c") (EBinOp BitXor (EName "c") (EName "x"))] [];
+         SReturn (EIfExp (EName "c") (EName "p") (EName "q"))].
+Definition ex2_env : env :=
+  env_of [("a", VTup [VBool true; VBool false; VBool true]); ("t", VTup [VInt 1; VInt 2]); ("c", VBool true)].
+
+Example ex2_in_guard : a2a_guard ex2_fun = true.
+Proof. vm_compute. reflexivity. Qed.
+Example ex2_typed : (plen_of ex2_fun "a", plen_of ex2_fun "t", plen_of ex2_fun "c") = (Some 3%nat, Some 2%nat, None).
+Proof. vm_compute. reflexivity. Qed.
+Example ex2_conforms : conforms ex2_fun ex2_env.
+Proof. apply conforms_check. vm_compute. reflexivity. Qed.
+Example ex2_rewritten : match a2a ex2_fun with Ok b' => run no_ext b' ex2_env | _ => None end = Some (VInt 5).
+Proof. vm_compute. reflexivity. Qed.
+Example ex2_source : run no_ext (f_body ex2_fun) ex2_env = Some (VInt 5).
 Proof. vm_compute. reflexivity. Qed.
